@@ -260,7 +260,8 @@ PARSE_ENTRIES = [
 def parse_jobs(ctx):
     def build():
         prog = ctx.prog
-        cfg = {"newinit_guarded": newinit_guarded_set(prog)}
+        from .reflect import getattr_targets
+        cfg = {"newinit_guarded": newinit_guarded_set(prog), "getattr_targets": getattr_targets(prog)}
         jobs = []
         for qual, clsq, param in PARSE_ENTRIES:
             f = prog.func(qual)
@@ -279,3 +280,27 @@ def parse_jobs(ctx):
             jobs.append((qual, qual, args, cfg, None, None))
         return run_jobs(prog, jobs), [j[0] for j in jobs]
     return ctx.cached("parsejobs", build)
+
+
+def op_jobs(ctx):
+    """Building and inspecting combinations: operands a, b are protected."""
+    def build():
+        prog = ctx.prog
+        cfg = {"newinit_guarded": newinit_guarded_set(prog)}
+        a, b = obj("conditions.ConditionLike", "a"), obj("conditions.ConditionLike", "b")
+        jobs = []
+        for d in ("__and__", "__or__", "__xor__"):
+            jobs.append((d, f"conditions.ConditionLike.{d}", {"self": a, "other": b}, cfg, None, None))
+        for m in ("flatten", "is_null", "is_key_like", "is_index_like", "is_value_like"):
+            jobs.append((m, f"conditions.ConditionLike.{m}", {"self": a}, cfg, None, None))
+        jobs.append(("is_like", "conditions.ConditionLike.is_like", {"self": a, "cls": mk("cls:conditions.KeyLike")}, cfg, None, None))
+        jobs.append(("__repr__", "conditions.ConditionBinaryOp.__repr__", {"self": obj("conditions.ConditionBinaryOp", "a")}, cfg, None, None))
+        for cq in ("datapath.MapValue", "datapath.ListValue"):
+            c = prog.cls(cq)
+            init = c.lookup_method("__init__")
+            args = {"self": mk(f"inst:{cq}", fields=())}
+            for p in init.params[1:]:
+                args[p.name] = join(NONE, a) if p.name in ("condition",) else (join(NONE, b) if p.name in ("key", "index", "value") else NONE)
+            jobs.append((f"{cq}.__init__", init.qualname, args, cfg, None, None))
+        return run_jobs(prog, jobs), [j[0] for j in jobs]
+    return ctx.cached("opjobs", build)
